@@ -86,6 +86,8 @@ class _Wiring(Contract):
             def model(I, self_obj, *args, **kw):
                 cur().ghost.setdefault("core_calls", []).append((name, args, kw))
                 if name == "subsample":
+                    if len(args) == 5 and all(a is None for a in args[1:4]):
+                        return args[0]  # (PandasSubsample/post: without head / tail / sample the object itself)
                     tok = Obj(None, f"SUBSAMPLE#{len([c for c in cur().ghost['core_calls'] if c[0]=='subsample'])}", pre=True)
                     return tok
                 r = Obj(CoreCheckResult, "result_" + name, pre=True, fields=dict(passed=T.Const(True)))
@@ -114,6 +116,7 @@ class ContainerWiring(_Wiring):
     core_names = ("check_column_names_are_unique", "check_column_presence", "check_column_values_are_unique",
                   "run_schema_component_checks", "run_checks")
     params = dict(self=None)
+    split = {"options": ["given", "none"]}
 
     @property
     def backend_cls(self):
@@ -129,6 +132,8 @@ class ContainerWiring(_Wiring):
              "column_info": T.fresh_value(T.Any, "column_info"), "sample": T.fresh_value(T.Any, "sample"),
              "components": T.fresh_value(T.Any, "components"), "lazy": T.fresh_value(T.Bool, "lazy"),
              "head": T.fresh_value(T.Any, "head"), "tail": T.fresh_value(T.Any, "tail"), "random_state": T.fresh_value(T.Any, "random_state")}
+        if self.fixed.get("options", "given") == "none":
+            a.update(head=None, tail=None, sample=None)
         return a
 
     def call_target(self, I, fn, a):
@@ -142,7 +147,13 @@ class ContainerWiring(_Wiring):
         sargs = sub[0][1]
         out["subsample_gets_callers_options"] = (len(sargs) == 5 and sargs[0] is check_obj and sargs[1] is head and sargs[2] is tail
                                                  and sargs[3] is sample and sargs[4] is random_state and not sub[0][2])
-        tok = [o for o in cur().objects if o.name.startswith("SUBSAMPLE#")][0]
+        toks = [o for o in cur().objects if o.name.startswith("SUBSAMPLE#")]
+        tok = toks[0] if toks else check_obj
+        # C03: the schema components PARSE (custom parsers, written back in place) the table they are given - the table validate goes
+        # on to return must be that table, or the parsed values are lost (they end up in a sub-sample copy)
+        comp = self.calls("run_schema_component_checks")
+        if len(comp) == 1:
+            out["components_parse_the_table_that_is_returned"] = comp[0][1][0] is check_obj
         for name, want in (("check_column_names_are_unique", check_obj), ("check_column_presence", check_obj),
                            ("check_column_values_are_unique", tok), ("run_schema_component_checks", tok), ("run_checks", tok)):
             cs = self.calls(name)
